@@ -524,7 +524,7 @@ inductive EnvShape where
 def reflectMap (v : GoVal) : EnvShape :=
   if v.isNil then .notMap else
     match unwrapEnv v with
-    | none => .escapes
+    | none => .notMap                    -- a nil behind a pointer/interface: left to TypeOf / ValOf
     | some (.map .string _ es) => .strMap es
     | some (.mapNil .string _) => .strMap .nil
     | some _ => .notMap
